@@ -293,13 +293,12 @@ Definition add_file (p : prog) (f : lstr) (dir : N) (info : option finfo) : res 
   end.
 
 (* LineProgram::new.
-   `assert!(line_base + line_range as i8 > 0)`: the cast wraps, the i8 addition is overflow-checked
-   in debug builds and wraps in release builds. *)
+   `assert!(line_base <= 0); assert!(i16::from(line_base) + i16::from(line_range) > 0)` (the i16 sum of an
+   i8 and a u8 cannot overflow). Modelled at /repo commit 56e0acc (after fix eea5f40). *)
 Definition lp_new (dbg : bool) (e : enc) (l : lenc) (working_dir : lstr) (source_dir : option lstr)
            (source_file : lstr) (source_info : option finfo) : res prog :=
   if negb (le_line_base l <=? 0)%Z then Panic else
-  let* s := chk_s 8 dbg (le_line_base l + to_i8 (le_line_range l))%Z in
-  if negb (0 <? s)%Z then Panic else
+  if negb (0 <? le_line_base l + Z.of_N (le_line_range l))%Z then Panic else
   let p0 := mkProg e l [] [] false false false false (wrow_initial e l) (wrow_initial e l) [] false in
   let* (p1, wd) := add_directory p0 working_dir in
   if 5 <=? e_version e then
@@ -342,12 +341,11 @@ Definition op_advance (dbg : bool) (l : lenc) (row prev : wrow) : res N :=
    advance (special opcode candidate or DW_LNS_advance_line), the operation advance (folded into the
    special opcode, DW_LNS_const_add_pc + special, or DW_LNS_advance_pc), the row-emitting opcode. *)
 
-(* debug_assert!(line_base <= 0); debug_assert!(line_base + line_range as i8 >= 0); *)
+(* debug_assert!(line_base <= 0); debug_assert!(i16::from(line_base) + i16::from(line_range) >= 0); *)
 Definition adv_debug_asserts (dbg : bool) (l : lenc) : res unit :=
   if dbg then
     if negb (le_line_base l <=? 0)%Z then Panic else
-    let* s := chk_s 8 dbg (le_line_base l + to_i8 (le_line_range l))%Z in
-    if negb (0 <=? s)%Z then Panic else Ok tt
+    if negb (0 <=? le_line_base l + Z.of_N (le_line_range l))%Z then Panic else Ok tt
   else Ok tt.
 
 (* special_default = special_base.wrapping_sub(line_base) *)
@@ -358,8 +356,11 @@ Definition adv_line_stage (dbg : bool) (l : lenc) (line_advance : Z) : res (N * 
   let line_base := of_i64 (le_line_base l) in                       (* i64::from(line_base) as u64 *)
   if negb (line_advance =? 0)%Z then
     let special_line := wrap64 (of_i64 line_advance + two64 - line_base) in   (* wrapping_sub *)
+    (* `special_line < line_range && special_base + special_line <= 255`: the special opcode must fit a byte *)
     if special_line <? le_line_range l then
-      let* s := chk_add 64 dbg OPCODE_BASE special_line in Ok (s, true, [])
+      let* s := chk_add 64 dbg OPCODE_BASE special_line in
+      if s <=? 255 then Ok (s, true, [])
+      else Ok (special_default l, false, [IAdvanceLine line_advance])
     else Ok (special_default l, false, [IAdvanceLine line_advance])
   else Ok (special_default l, false, []).
 
